@@ -31,14 +31,13 @@ CFG = {
     "quick":    dict(mc="MC_RefCount.cfg",   gen="Gen_RefCount.cfg",   nhist=160, steps=50),
     "thorough": dict(mc="MC_RefCount_t.cfg", gen="Gen_RefCount_t.cfg", nhist=1600, steps=70),
 }
-KINDS = ["buf", "hmeta", "reply", "rawdata", "stream", "geninfo", "metabuf", "cxxref", "bare"]
+KINDS = ["buf", "hmeta", "reply", "rawdata", "stream", "outlocal", "outremote", "iterfile", "geninfo", "metabuf", "cxxref", "bare"]
 T_NH, T_NOBJ, T_MAX, T_EXTRA = 4, 8, 1000, 3      # constants of Trace_RefCount.cfg
 
 
 def build():
     core = vseam.seam_archive("core", vseam.repo_c_files("mptcore", exclude=("libinfo.c",)))
-    plot = vseam.seam_archive("plotvals", ["mptplot/rawdata_create.c", "mptplot/rawdata_type_traits.c"]
-                              + vseam.repo_c_files("mptplot/values"))
+    plot = vseam.seam_archive("plot", vseam.repo_c_files("mptplot", exclude=("libinfo.c",)))
     io = vseam.seam_archive("io", vseam.repo_c_files("mptio", exclude=("libinfo.c",)))
     drv = vseam.cached_objects([os.path.join(vlib.DRV, "refcount.c")])
     flags = tuple(drv) + ("-Wl,--whole-archive", plot, io, core, "-Wl,--no-whole-archive")
@@ -60,7 +59,7 @@ def match(exp, obs, step, rec, prev):
         return "alive: expected %s, observed %s" % (exp["alive"], obs.get("alive"))
     if sorted(obs.get("gone") or []) != sorted(exp["gone"]):
         return "gone: expected destroyed %s, observed %s" % (exp["gone"], obs.get("gone"))
-    for k in ("href", "copy", "cnt", "shared", "bare"):
+    for k in ("href", "copy", "cnt", "shared", "bare", "badfree"):
         if obs.get(k) != exp[k]:
             return "%s: expected %s, observed %s" % (k, exp[k], obs.get(k))
     if exp["val"] != -1 and obs.get("val") != exp["val"]:
@@ -87,9 +86,9 @@ def kind_of(beh):
 # ---------------------------------------------------------------------------
 COPY_VIAS = {"buf": ["clone", "traits", "cxx", "cxxctor"], "cxxref": ["cxx", "cxxctor"]}
 DROP_VIAS = {"buf": ["clone", "fini", "raw", "cxx"], "cxxref": ["cxx"]}
-META = ("hmeta", "reply", "rawdata", "stream", "geninfo", "metabuf")
-SHARABLE = ("buf", "hmeta", "reply", "rawdata", "stream", "cxxref")
-CLONABLE = ("hmeta", "geninfo", "metabuf")
+META = ("hmeta", "reply", "rawdata", "stream", "geninfo", "metabuf", "outlocal", "outremote", "iterfile")
+SHARABLE = ("buf", "hmeta", "reply", "rawdata", "stream", "cxxref", "outlocal", "outremote", "iterfile")
+CLONABLE = ("hmeta", "geninfo", "metabuf", "iterfile")
 
 
 class Ideal:
@@ -129,8 +128,8 @@ def gen_histories(ck, n, steps):
                     beh.append({"a": op, "arg": {"api": rng.choice(["c", "cxx"])}})
             behs.append(beh)
             continue
-        cv = COPY_VIAS.get(k, ["conv", "traits", "cxx", "cxxctor"])
-        dv = DROP_VIAS.get(k, ["conv", "fini", "raw", "cxx"])
+        cv = COPY_VIAS.get(k, ["conv", "value", "valueptr", "traits", "cxx", "cxxctor"])
+        dv = DROP_VIAS.get(k, ["conv", "value", "fini", "raw", "cxx"])
         for _ in range(steps):
             ops = ["create"] * 3 + ["copy"] * 8 + ["drop"] * 4 + ["move"] * 2 + ["detach", "adopt", "adopt", "rawref", "rawunref",
                    "rawunref", "arrcopy", "arrdrop", "arrdrop", "clone", "unshare", "unshare", "poke", "unpoke", "unpoke", "defer", "undefer", "undefer"]
